@@ -6,7 +6,9 @@ import (
 	"errors"
 	"fmt"
 	"io"
+	"math"
 	"regexp"
+	"strconv"
 	"strings"
 
 	"github.com/klauspost/compress/s2"
@@ -282,6 +284,7 @@ func panicKey(err error) string {
 }
 
 type c19State struct {
+	look    *simdjson.ParsedJson // recycled destination full of tag look-alikes
 	n       int
 	idx     int
 	ser     *simdjson.Serializer
@@ -613,6 +616,36 @@ func sweepContainers(pj *simdjson.ParsedJson, deep bool) error {
 	return nil
 }
 
+// c19Lookalike: two serialized documents (the second shifted by one tape word) of 600 floats whose
+// bit patterns carry each tag letter in the top byte and a large number in the low 56 bits.
+var c19Lookalike = func() [2][]byte {
+	var out [2][]byte
+	for sh := 0; sh < 2; sh++ {
+		var b bytes.Buffer
+		b.WriteByte('[')
+		if sh == 1 {
+			b.WriteString("true,")
+		}
+		tags := []byte(`{}[]"rNludtfn`)
+		for i := 0; i < 600; i++ {
+			if i > 0 {
+				b.WriteByte(',')
+			}
+			bits := uint64(tags[i%len(tags)])<<56 | 0x000fffffffffff00 | uint64(i)
+			b.WriteString(strconv.FormatFloat(math.Float64frombits(bits), 'g', -1, 64))
+		}
+		b.WriteByte(']')
+		pj, err := simdjson.Parse(b.Bytes(), nil)
+		if err != nil {
+			continue
+		}
+		s := simdjson.NewSerializer()
+		s.CompressMode(simdjson.CompressNone)
+		out[sh] = s.Serialize(nil, *pj)
+	}
+	return out
+}()
+
 func (w *W) c19Try(st *c19State, g string, blob []byte) {
 	st.idx++
 	if !w.mine(st.idx) {
@@ -632,8 +665,26 @@ func (w *W) c19Try(st *c19State, g string, blob []byte) {
 		st.ser = simdjson.NewSerializer()
 	}
 	past := false
-	for variant := 0; variant < 2; variant++ {
+	nvar := 2
+	if len(blob) <= 4096 {
+		nvar = 3 // small blobs also into the look-alike destination
+	}
+	for variant := 0; variant < nvar; variant++ {
 		var dst *simdjson.ParsedJson
+		if variant == 2 {
+			// a destination whose tape is full of number payload words that look like tape entries
+			// (top byte = every tag letter, low bits large): whatever Deserialize reads from a slot
+			// it has not written in this call is not a tape entry. Refilled before every use (small).
+			lk := c19Lookalike[st.n%2]
+			if lk == nil {
+				continue
+			}
+			st.look, _ = simdjson.NewSerializer().Deserialize(lk, st.look)
+			dst = st.look
+			if dst == nil {
+				continue
+			}
+		}
 		if variant == 1 {
 			// a destination that held a larger document before: capacities exceed lengths
 			if st.reused == nil && st.bigBlob != nil {
@@ -658,9 +709,12 @@ func (w *W) c19Try(st *c19State, g string, blob []byte) {
 		disarmCall()
 		w.Eval(1)
 		if perr != nil {
-			w.Violation("C19/Deserialize-panic/"+panicKey(perr), fmt.Sprintf("Deserialize panicked (dst %s): %v; blob=%s from %s", []string{"nil", "reused"}[variant], perr, q(blob), g), cs)
+			w.Violation("C19/Deserialize-panic/"+panicKey(perr), fmt.Sprintf("Deserialize panicked (dst %s): %v; blob=%s from %s", []string{"nil", "reused", "look-alike"}[variant], perr, q(blob), g), cs)
 			if variant == 1 {
 				st.reused = nil
+			}
+			if variant == 2 {
+				st.look = nil
 			}
 			continue
 		}
